@@ -146,3 +146,9 @@ def run(ctx):
                 ctx.mismatch(f"PELT model <> implementation on n={c['n']} m={c['m']} pen={c['pen']}: impl cpts={cpts}", inp,
                              {"what": "model-mismatch"})
     ctx.notes["split_inequality_cases"] = sum(1 for c, _, _ in metas if c["stream"][0] in "AC" or "corpus" in c["stream"])
+    # ---- object reuse: a real cost, the same detector over several series (see harness/reuse.py) ----
+    from harness.reuse import reuse_stream
+    from skchange.change_detectors import PELT
+    from skchange.costs import GaussianVarCost, L2Cost
+    reuse_stream(ctx, "PELT(L2Cost)", lambda: PELT(cost=L2Cost(), min_segment_length=2), ctx.n(6, 40))
+    reuse_stream(ctx, "PELT(GaussianVarCost)", lambda: PELT(cost=GaussianVarCost(), min_segment_length=3, penalty_scale=0.5), ctx.n(4, 30))
